@@ -68,11 +68,12 @@ impl<'a> Plugin for Intercept<'a> {
                         .schema
                         .iter()
                         .map(|row| {
-                            let name = &row[0];
-                            let data_type = &row[1];
+                            // A column written without a type (or without a name) does not panic.
+                            let name = row.first().map(|s| s.as_str()).unwrap_or_default();
+                            let data_type = row.get(1).map(|s| s.as_str()).unwrap_or_default();
                             (
-                                name.as_str(),
-                                match data_type.as_str() {
+                                name,
+                                match data_type {
                                     "text" => DataType::Text,
                                     "anyarray" => DataType::AnyArray,
                                     "oid" => DataType::Oid,
